@@ -218,7 +218,18 @@ func init() {
 						if staticCallee(c) != hc {
 							continue
 						}
-						n++
+						// (a site inside an unexported helper counts once per use of the helper: merging two sites into one
+						// shared helper leaves the number of hashing uses unchanged)
+						w := 0
+						if fn.Object() != nil && !fn.Object().Exported() && fn.Parent() == nil {
+							for _, g := range P.AllFuncs {
+								w += len(callsTo(g, fn))
+							}
+						}
+						if w < 1 {
+							w = 1
+						}
+						n += w
 						k := FuncKey(fn)
 						d := desc(callArgs(c)[1])
 						want := "false"
